@@ -374,3 +374,11 @@ package dmap
 //@                pc.HasPXAT == (putCmd.EX == 0 && putCmd.PX == 0 && putCmd.EXAT == 0 && putCmd.PXAT != 0)
 //@   ensures #expiry_ms [C15 C09] internal: (pc.HasPX ==> pc.PX == int64(putCmd.PX * 1000000)) && (pc.HasPXAT ==> pc.PXAT == int64(putCmd.PXAT * 1000000))
 //@   ensures #payload [C15] internal: e.dmap == putCmd.DMap && e.key == putCmd.Key && e.value == putCmd.Value && e.putConfig != nil
+
+// C05: a DMap cannot be opened below the member-count quorum.
+//@ func (s *Service) NewDMap(name string) (*DMap, error)
+//@   props C05
+//@   flag termination
+//@   flag wired 2
+//@   flag skip nil
+//@   ensures #below_quorum_refused [C05]: old(s.rt.below_quorum()) ==> result.1 == routingtable.ErrClusterQuorum && result.0 == nil && s.dmaps == old(s.dmaps) && len(s.dmaps) == old(len(s.dmaps))
